@@ -80,6 +80,12 @@ CLAIMS = {
         "Trusted: leaf extents come from the tiling cursor (C04); the DBC/C text for accepted messages is C05/C06's concern.",
         "DESIGN.md §4 C14",
     ),
+    "C17": (
+        "inventory + use classification of nondeterminism sources over the call graph from the plug-ins' generate() (including functions installed as Jinja globals), stamp-variable placement in template ASTs, write/read analysis of long-lived objects, freshness propagation for stores on schema-typed objects",
+        "Structural: every source of run-to-run variation reachable from a plug-in's generate() (set order, hash/id, clock, uid, host, listings, random/uuid/env) is either order-insensitive in its use, reaches only the order of the returned record list, or feeds a stamp variable that occurs in templates only on // comment lines; no written long-lived object (mutable default, module-level or class-level mutable, memoised function) is read on a generate path; every store on a schema-typed object on a generate path targets an object created during that generation (freshness propagated over all call sites), so the caller's schema is not changed.",
+        "Trusted: determinism of jinja2/cantools/dict order; uses of a set stored in a variable are UNDECIDED.",
+        "DESIGN.md §4 C17",
+    ),
 }
 
 NOT_BUILT = "check not built yet in this session (see DESIGN.md §7 build order); not claimed until it exists"
